@@ -534,6 +534,11 @@ class Closing(State):
             self.event_peer_disc()
             return
 
+        #: The DPR may still sit in the send queue behind messages which did
+        #: not fit into the batches sent so far: keep flushing.
+        if self.has_send_queue_message():
+            self.send_message()
+
         if self.has_recv_queue_message():
             self.msg = self.get_message()
 
